@@ -17,7 +17,7 @@ RULE = ("exhaustive: 1..4 caches x every hit/miss assignment per cache (multi-ke
         "to and including the first that answers, none after it; result is that cache's answer (all-miss: a "
         "miss-shaped value); a write is exactly one call on cache 0 carrying the caller's arguments (real back-end: "
         "the command received by server 0 equals the one a plain Client sends; other servers receive nothing). "
-        "Hit values include falsy ones (b'', 0, '', False, [], {}): a hit is a hit whatever its value. Non-trivial: >=2 caches and the first hit is not in cache 0, or a hit carries a falsy value, or a write.")
+        "Hit values include falsy ones (b'', 0, '', False, [], {}): a hit is a hit whatever its value. Long key lists (2 ... 2049 keys, thorough to 10001, as list and tuple; the primary holding a single key at the start / middle / end / position 1024 / 1400, or nothing, or everything) go through the same oracle: every consulted cache is asked once, for exactly the caller's keys. Non-trivial: >=2 caches and the first hit is not in cache 0, or a hit carries a falsy value, or a write.")
 MANIFEST = {
     "category": "exploration",
     "technique": "bounded-exhaustive enumeration of cache states and operations against a call-log oracle (scripted caches) and a differential oracle (real Clients over a fake network vs. a plain Client)",
@@ -201,6 +201,54 @@ def read_cases(tier, seed):
                     continue
                 for op in ("get", "gets", "get_many", "gets_many"):
                     yield (op, st, vk)
+
+
+# ---- long key lists -----------------------------------------------------------
+
+def long_read_cases(tier, seed):
+    sizes = [2, 100, 1023, 1024, 1025, 1500, 2049] + ([4096, 5000, 10001] if tier == "thorough" else [])
+    for n in sizes:
+        spots = sorted({0, n // 2, n - 1, min(n - 1, 1400 % n), min(n - 1, 1024)})
+        for op in ("get_many", "gets_many"):
+            for coll in ("list", "tuple"):
+                for where in spots:
+                    # the primary holds one key only, the older caches hold everything / the middle cache holds one key
+                    yield {"op": op, "n": n, "coll": coll, "present": [[where], "all"]}
+                    yield {"op": op, "n": n, "coll": coll, "present": [[], [where], "all"]}
+                yield {"op": op, "n": n, "coll": coll, "present": [[], "all"]}
+                yield {"op": op, "n": n, "coll": coll, "present": ["all", "all"]}
+                yield {"op": op, "n": n, "coll": coll, "present": [[], []]}
+
+
+def check_read_long(case):
+    op, n = case["op"], case["n"]
+    keys = ["key-%05d" % i for i in range(n)]
+    arg = keys if case["coll"] == "list" else tuple(keys)
+    log = []
+    caches = [Scripted(i, set(keys) if pr == "all" else {keys[j] for j in pr}, log) for i, pr in enumerate(case["present"])]
+    fc = FallbackClient(caches)
+    desc = "%s over a %s of %d keys; caches hold %r" % (op, case["coll"], n, case["present"])
+    try:
+        r = getattr(fc, op)(arg)
+    except Exception as e:  # noqa: BLE001
+        raise Violation(["read-raises", op, "long"], "%s raised %r" % (desc, e))
+    answering = next((i for i, c in enumerate(caches) if c.present), None)
+    consulted = [i for i, _name, _b in log]
+    want = list(range(len(caches) if answering is None else answering + 1))
+    if consulted != want:
+        raise Violation(["read-consulted", op, "long"], "%s consulted caches %r, expected %r" % (desc, consulted, want))
+    for i, name, b in log:
+        if name != op or list(b["keys"]) != keys:
+            raise Violation(["read-args", op, "long"], "%s: cache %d was asked %s for %d keys (%r...), not for the caller's keys" % (desc, i, name, len(b["keys"]), list(b["keys"])[:2]))
+    if answering is None:
+        if not _is_miss(op, r):
+            raise Violation(["read-allmiss", op, "long"], "%s returned %d entries, not a miss" % (desc, len(r)))
+    else:
+        c = caches[answering]
+        exp = {k: (c._val(k) if op == "get_many" else (c._val(k), b"%d" % (100 + answering))) for k in keys if k in c.present}
+        if r != exp:
+            raise Violation(["read-result", op, "long"], "%s returned %d entries (%r...), expected cache %d's answer of %d entries" % (desc, len(r), sorted(r.items())[:2], answering, len(exp)))
+    return n > 1000, ["read-long", op, "n>1024" if n > 1024 else "n<=1024"]
 
 
 # ---- writes ----------------------------------------------------------------
@@ -462,6 +510,7 @@ def check_write_real(case):
 PARTS = [
     Part("reads-scripted", "enum", check_read, cases=read_cases, shards={"quick": 2, "thorough": 2}, exhaustive=True),
     Part("writes-scripted", "enum", check_write, cases=write_cases, shards={"quick": 2, "thorough": 2}, exhaustive=True),
+    Part("reads-long-key-lists", "enum", check_read_long, cases=long_read_cases, shards={"quick": 4, "thorough": 8}, exhaustive=True),
     Part("reconfigured-cache-list", "enum", check_reconfig, cases=reconfig_cases, shards={"quick": 1, "thorough": 1}, exhaustive=True),
     Part("returned-containers", "enum", check_fresh_container, cases=fresh_container_cases, shards={"quick": 1, "thorough": 1}, exhaustive=True),
     Part("reads-real", "enum", check_read_real, cases=read_real_cases, shards={"quick": 4, "thorough": 4}, exhaustive=True),
